@@ -129,7 +129,7 @@ def gen_links(tier, seed, rels):
                     keep = [j for j in range(n) if j not in miss]
                     if len(keep) < need + 1:
                         miss = set(list(miss)[: max(0, n - need - 1)])
-                    ndL = rng.choice([min(line) - 500, max(line) + 500, max(line) + 1])      # the placeholder below OR above the data
+                    ndL = [min(line) - 500, max(line) + 500, max(line) + 1][len(links) % 3]      # the placeholder below OR above the data (in turn, not by chance)
                     o = with_y(c, encode(line, miss, ndL), ndL)
                     links.append({"rel": rel, "line": [str(v) for v in line], "base": o, "other": o})
     # boundary of the "too few valid cells" guard: 0 .. need+1 valid cells, every variant, every relation
@@ -159,7 +159,7 @@ def gen_links(tier, seed, rels):
                 a, b = rng.randint(-2000, 4000), rng.choice([-40, -3, 0, 2, 25])
                 line = [a + b * t for t in range(n)]
                 miss = set(range(n)) - {i, j}
-                ndL = rng.choice([min(line) - 500, max(line) + 500])
+                ndL = [min(line) - 500, max(line) + 500][len(links) % 2]
                 c = params(rng, variant, n, quick)
                 o = with_y(c, encode(line, miss, ndL), ndL)
                 links.append({"rel": "affine", "line": [str(v) for v in line], "base": o, "other": o})
